@@ -405,7 +405,7 @@ def rule_vi6(A: Analysis, rep):
     rep.check(ok, "VI6", "new version from HEAD of this invocation", cnv.node, "generate_new_output_version(commit=ctx.current_commit)",
               "create_new_version does not generate the version from ctx.current_commit and store it as the task's version")
     r = [n for n in g.nodes if n.kind == "stmt" and isinstance(n.ast, ast.Return)]
-    okr = len(r) == 1 and len(stores) == 1 and g.all_paths_pass(g.entry, r[0], stores, skip_labels=skip)
+    okr = len(r) == 1 and len(stores) == 1 and A.all_paths_pass_dw(g, cnv, g.entry, r[0], stores, skip_labels=skip)
     if okr:
         rv = {v for _c, v in A.rvalues(cnv, r[0].ast.value, r[0], g, keep=lambda a: False, calls=True)}
         okr = rv in ({"self._most_relevant_version"}, {call_txt})
@@ -426,9 +426,15 @@ def rule_vi6(A: Analysis, rep):
         r = [x for x in walk_local(pf.node) if isinstance(x, ast.Return)]
         rep.check(len(r) == 1 and norm(r[0].value) == "self." + field, "VI6", "Commit.%s" % prop, pf.node, "", "getter changed", deep=False)
     ctxc = A.fn("context.Context.current_commit")
-    st = [s for s in walk_local(ctxc.node) if isinstance(s, ast.Assign) and norm(s.targets[0]) == "self._curr_commit"]
-    rep.check(len(st) == 1 and norm(st[0].value) == "self._git.current_commit() if self.uses_git else None", "VI6", "ctx.current_commit", ctxc.node,
-              "", "Context.current_commit is `%s`" % (norm(st[0].value) if st else "?"))
+    gcc = A.cfg(ctxc, "plain")
+    st = [n for n in gcc.nodes if n.kind == "stmt" and isinstance(n.ast, ast.Assign) and norm(n.ast.targets[0]) == "self._curr_commit"]
+    vals = set()
+    for n in st:
+        for c, v_ in A.rvalues(ctxc, n.ast.value, n, gcc, keep=lambda a: a == "t(self.uses_git)", calls=True):
+            vals.add((tuple(sorted(c)), v_))
+    want_cc = {((("t(self.uses_git)", True),), "self._git.current_commit()"), ((("t(self.uses_git)", False),), "None")}
+    rep.check(vals == want_cc, "VI6", "ctx.current_commit", ctxc.node,
+              "HEAD's commit when the project uses git, None otherwise", "Context.current_commit stores %s" % sorted(vals))
     rep.expect_min("VI6", 6)
 
 
